@@ -41,29 +41,69 @@ def r1(ctx):
         imp = [i for i in P.impls if i.get("self") == ENG + pol and i.get("trait") == ENG + "Policy"]
         flip = imp[0]["assoc_types"].get("Flip") if imp else None
         ctx.ob(f"{pol}::Flip", flip == w["Flip"], f"<{pol} as Policy>::Flip = {flip}, expected {w['Flip']}", sample=flip)
-    cmp_want = {"White": "lt", "Black": "gt"}
-    for pol, op in cmp_want.items():
+    def as_lt(term):
+        """score-order comparison as ("lt"|"le", x, y): a > b is b < a, a >= b is b <= a"""
+        if term[0] == "app" and term[1].startswith(f"<{SCORE} as core::cmp::PartialOrd>::") and len(term[2]) == 2:
+            op = term[1].rsplit("::", 1)[1]
+            a, b = [x[1] if x[0] == "refv" else x for x in term[2]]
+            if op in ("lt", "le"):
+                return (op, a, b)
+            if op in ("gt", "ge"):
+                return ({"gt": "lt", "ge": "le"}[op], b, a)
+        return None
+    # is_better(score, new): White prefers larger (score < new), Black smaller (new < score)
+    for pol in ("White", "Black"):
         key = f"<{ENG}{pol} as {ENG}Policy>::is_better"
         ctx.used_body(key)
         lv = eng.tabulate(key)
-        ok = len(lv) == 1 and lv[0].ret[0] == "app" and lv[0].ret[1] == f"<{SCORE} as core::cmp::PartialOrd>::{op}" and \
-            [a[1] if a[0] == "refv" else a for a in lv[0].ret[2]] == [("param", 0, "a0"), ("param", 1, "a1")]
-        ctx.ob(f"{pol}::is_better", ok, f"{key} = {[T.show(l.ret) for l in lv]}; expected score {'<' if op == 'lt' else '>'} new", site=P.body(key).get("def_span"), sample=f"score.{op}(new)")
+        s_, n_ = ("param", 0, "a0"), ("param", 1, "a1")
+        want = ("lt", s_, n_) if pol == "White" else ("lt", n_, s_)
+        ok = len(lv) == 1 and as_lt(lv[0].ret) == want
+        ctx.ob(f"{pol}::is_better", ok, f"{key} = {[T.show(l.ret) for l in lv]}; expected score {'<' if pol == 'White' else '>'} new", site=P.body(key).get("def_span"), sample=str(want[0]))
+    # update_cutoff(alpha, beta, score): White raises alpha to max(alpha, score), Black lowers beta to min(beta, score); nothing else is written
     cut = {"White": ("alpha", 0, "max"), "Black": ("beta", 1, "min")}
     for pol, (which, idx, fn) in cut.items():
         key = f"<{ENG}{pol} as {ENG}Policy>::update_cutoff"
         ctx.used_body(key)
         lv = eng.tabulate(key)
-        ok = False
-        if len(lv) == 1:
-            names = [P.body(key)["locals"][i + 1].get("n") for i in range(3)]
-            prm = [("param", i, names[i]) for i in range(3)]
-            written = {p: v for p, v in lv[0].ext.items() if p in prm}
-            tgt = prm[idx]
-            val = eng.freeze(lv[0].state, written.get(tgt)) if tgt in written else None
-            other_written = [p for p in written if p != tgt]
-            ok = (val is not None and val[0] == "app" and val[1] == f"<{SCORE} as core::cmp::Ord>::{fn}" and
-                  sorted(map(repr, val[2])) == sorted(map(repr, [("param", 2, names[2]), ("obj", tgt)])) and not other_written)
+        names = [P.body(key)["locals"][i + 1].get("n") for i in range(3)]
+        prm = [("param", i, names[i]) for i in range(3)]
+        tgt, score = prm[idx], prm[2]
+        ok = bool(lv)
+        for lf in lv:
+            written = {p: eng.freeze(lf.state, v) for p, v in lf.ext.items() if p in prm}
+            if [p for p in written if p != tgt]:
+                ok = False
+                continue
+            val = written.get(tgt)
+            if len(lv) == 1:
+                ok &= (val is not None and val[0] == "app" and val[1] == f"<{SCORE} as core::cmp::Ord>::{fn}" and
+                       sorted(map(repr, val[2])) == sorted(map(repr, [score, ("obj", tgt)])))
+                continue
+            # conditional assignment: `if score > *alpha { *alpha = score }` (any spelling of the comparison)
+            cs = [(as_lt(t_), v) for t_, v in lf.cond if as_lt(t_)]
+            if len(cs) != 1:
+                ok = False
+                continue
+            (op, x, y), v = cs[0]
+            old = ("obj", tgt)
+            # does this path know "score is strictly beyond the old bound" (score > alpha for White, score < beta for Black)?
+            beyond = None
+            if {x, y} == {old, score}:
+                if fn == "max":
+                    beyond = (v == 1) if (op, x, y) == ("lt", old, score) else ((v == 0) if (op, x, y) == ("le", score, old) else None)
+                    weak = (v == 1) if (op, x, y) == ("le", old, score) else ((v == 0) if (op, x, y) == ("lt", score, old) else None)
+                else:
+                    beyond = (v == 1) if (op, x, y) == ("lt", score, old) else ((v == 0) if (op, x, y) == ("le", old, score) else None)
+                    weak = (v == 1) if (op, x, y) == ("le", score, old) else ((v == 0) if (op, x, y) == ("lt", old, score) else None)
+                if beyond is None:
+                    beyond = weak       # >= also yields max/min (assigning an equal score changes nothing)
+            if beyond is None:
+                ok = False
+            elif beyond:
+                ok &= val == score
+            else:
+                ok &= val is None or val == old
         ctx.ob(f"{pol}::update_cutoff", ok, f"{key} does not compute *{which} = score.{fn}(*{which}) (and nothing else)", site=P.body(key).get("def_span"), sample=f"*{which} = score.{fn}(*{which})")
 
 
